@@ -187,7 +187,7 @@ def check_crystal(part, spec):
             except Exception as e:
                 part.fail("molecule-setup:raise", "symmetry_unique_molecules raised %r [%s]" % (e, label), dict(base_case, radii=[radius]))
                 umols = []
-            for mode in ("environments", "environment", "environment-threshold", "group"):
+            for mode in ("environments", "environment", "environment-threshold", "environment-image", "environment-image-rebuilt", "group"):
                 part.ev()
                 part.tr()
                 case = dict(base_case, query="molecule_" + mode, radius=radius, radii=[radius])
@@ -199,6 +199,29 @@ def check_crystal(part, spec):
                     elif mode == "environment":
                         # a unit-cell molecule translated far outside the reference cell
                         m = c.unit_cell_molecules()[-1].translated(np.array([2, -3, 1]) @ M)
+                        res = [c.molecule_environment(m, radius=radius)]
+                        centres = [np.asarray(m.positions)]
+                    elif mode.startswith("environment-image"):
+                        # the centre is a SYMMETRY IMAGE of the unique molecule made by the caller with Molecule.transformed (a deep copy
+                        # that still carries the original's bookkeeping properties), or rebuilt from bare arrays at the same coordinates
+                        from chmpy.core.molecule import Molecule
+
+                        sg_ops = c.space_group.symmetry_operations
+                        opx = sg_ops[min(len(sg_ops) - 1, 1 + (int(radius * 10) % max(1, len(sg_ops) - 1)))]
+                        Rf, tf = np.asarray(opx.rotation, dtype=float), np.asarray(opx.translation, dtype=float)
+                        Minv_ = np.linalg.inv(M)
+                        Rc = M.T @ Rf @ Minv_.T          # cart' = Rc cart + tc  (column convention)
+                        tc = (tf + np.array([1.0, 0.0, -1.0])) @ M
+                        base_m = umols[0]
+                        want_pos = np.asarray(base_m.positions) @ Rc.T + tc
+                        m = base_m.transformed(rotation=Rc, translation=tc)
+                        if np.abs(np.asarray(m.positions) - want_pos).max() > 1e-8:
+                            m = base_m.transformed(rotation=Rc.T, translation=tc)
+                        if np.abs(np.asarray(m.positions) - want_pos).max() > 1e-8:
+                            part.skip("Molecule.transformed convention not recognised")
+                            continue
+                        if mode.endswith("rebuilt"):
+                            m = Molecule.from_arrays(np.asarray(m.atomic_numbers), np.asarray(m.positions).copy())
                         res = [c.molecule_environment(m, radius=radius)]
                         centres = [np.asarray(m.positions)]
                     elif mode == "environment-threshold":
